@@ -113,6 +113,17 @@ def g_actions(rng, sc_, depth, budget):
             tgt = rng.choice(SCALARS + ["<p>k"])
             ops.append(["stmt", ["assign", tgt, None, g_scal(rng, sc_, rng.choice([1, 2, 2, 3])), []]])
             sc_.scal.append(tgt) if tgt not in sc_.scal else None
+        elif r < 0.59 and sc_.scal:
+            # a scalar that mixes a loop counter (Integer) with a real: its kind is refined during inference,
+            # and a second scalar takes its kind from it only
+            tgt, dep = rng.sample(SCALARS, 2)
+            z = rng.choice(sc_.scal)
+            ops.append(["stmt", ["assign", tgt, None, ["+", [V("i"), ["/", V(z), C(4)]] if not EXACT[0] else [V("i"), V(z)]],
+                                 [["i", C(0), C(N)]]]])
+            ops.append(["stmt", ["assign", dep, None, V(tgt), []]])
+            ops.append(["stmt", ["assign", "<p>k", None, ["+", [V("<p>k"), ["*", [V(dep), V("<dt>")]]]], []]])
+            for n in (tgt, dep):
+                sc_.scal.append(n) if n not in sc_.scal else None
         elif r < 0.62:
             ops.append(["stmt", ["assign", "<t>", None, ["+", [V("<t>"), V("<dt>")]], []]])
         elif r < 0.7:
